@@ -1,6 +1,10 @@
 package main
 
-import "fmt"
+import (
+	"fmt"
+
+	"verifharness/hc"
+)
 
 // One small payload per production of the grammar G (and per defect shape found so far): the minimal witnesses of a
 // defect are among them, so a violation is reported with a case a person can read.
@@ -171,12 +175,69 @@ func seedPayloads() []*V {
 		add(ptr(st(fld("F1", nil, ptr(mk(1))), fld("F2", nil, mk(10)), fld("F3", nil, &V{K: "iface", Elem: ptr(mk(20))}), fld("F4", nil, sliceOf(ptr(mk(30)))),
 			fld("F5", nil, imap("k1", ptr(mk(40)))), fld("F6", nil, sliceOf(mk(50))))))
 	}
+	// the payload itself a slice of pointers to Taggable maps (value and pointer receiver), of pointers to plain maps, a pointer to a slice
+	add(sliceOf(ptr(tmapv(ptTags, "k1", str(1), "k2", str(2), "k3", str(3), "k4", str(4))), ptr(tmapv(ptTags, "k1", str(5), "k2", str(6)))))
+	add(sliceOf(ptr(ptm(1)), ptr(ptm(10))))
+	add(sliceOf(ptm(1)))
+	add(sliceOf(ptr(imap("k1", str(1), "k2", ptr(inner(2))))))
+	add(ptr(sliceOf(ptr(tmapv(ptTags, "k1", str(1), "k2", str(2))))))
+	add(ptr(sliceOf(inner(1), inner(4))))
+	// three distinct struct types named main.payload with different tags on the same field names, one after the other
+	// and two named main.record, met in the other order (the one that tags Key secret first); as the payload, as slice elements
+	// ([]T and []*T) and as a field - through a fresh Filter each time, within this one process
+	g0 := &gen{r: hc.NewRand(11)}
+	for _, n := range []string{"LocalA", "LocalB", "LocalC", "LocalB", "LocalA", "LocalE", "LocalD", "LocalE"} {
+		g0.canary = 0
+		add(ptr(g0.localOf(n)))
+	}
+	for _, n := range []string{"LocalB", "LocalA", "LocalD"} {
+		g0.canary = 0
+		add(sliceOf(g0.localOf(n), g0.localOf(n)))
+		add(sliceOf(ptr(g0.localOf(n))))
+		add(ptr(st(fld("F1", nil, g0.localOf(n)), fld("F2", nil, ptr(g0.localOf(n))))))
+	}
+	// the payload itself a slice of slices, of typed maps, of pointer-receiver Taggable structs
+	add(&V{K: "slice", Elem: &V{K: "strs", Cs: []int{1}}, Elems: []*V{{K: "strs", Cs: []int{1, 2}}, {K: "strs", Cs: []int{3}}}})
+	add(&V{K: "slice", Elem: sliceOf(inner(1)), Elems: []*V{sliceOf(inner(1)), sliceOf(inner(10))}})
+	add(sliceOf(&V{K: "map", Keys: []string{"k1", "k2"}, Vals: []*V{str(1), str(2)}}))
+	add(sliceOf(ptr(pts(1)), ptr(pts(10))))
+	add(sliceOf(pts(1)))
 	// unexported fields (F10)
 	add(ptr(&V{K: "hand", Hand: "UnexpA", Fields: []Field{fld("hidden", nil, &V{K: "int", I: 7}), fld("hiddenS", nil, str(1)), fld("N", nil, &V{K: "int", I: 5}), fld("Sec", sec, str(2)), fld("Pub", pub, str(3))}}))
 	return out
 }
 
+// payload shapes the filter does not (fully) look into - arrays, []interface{}, a slice behind a pointer to an interface: outside the
+// model, judged by the input-side oracles only (the caller's data is never modified, whatever the shape)
+func outsidePayloads() []*V {
+	sec := sp("secret")
+	inner := func(c int) *V {
+		return st(fld("F1", sec, str(c)), fld("F2", nil, &V{K: "strs", Cs: []int{c + 1, c + 2}}), fld("F3", nil, imap("k1", str(c+3))))
+	}
+	tm := func(c int) *V {
+		return tmapv([]PTag{{Ptr: "/k1", Class: "public"}, {Ptr: "/k2", Class: "sensitive"}}, "k1", str(c), "k2", str(c+1), "k3", str(c+2))
+	}
+	return []*V{
+		{K: "array", Elems: []*V{inner(1), inner(10)}},
+		{K: "array", Elems: []*V{ptr(inner(1)), ptr(inner(10))}},
+		{K: "array", Elems: []*V{str(1), str(2)}},
+		ptr(&V{K: "array", Elems: []*V{inner(1)}}),
+		{K: "islice", Elems: []*V{str(1), ptr(inner(2)), inner(10), tm(20), ptr(tm(30)), imap("k1", str(40)), &V{K: "bytes", C: 41}, &V{K: "strs", Cs: []int{42, 43}}}},
+		ptr(&V{K: "iface", Elem: sliceOf(ptr(tm(1)), ptr(tm(10)))}), // *interface{} holding a []*TaggableMap
+		ptr(&V{K: "iface", Elem: sliceOf(inner(1))}),
+		{K: "islice", Elems: []*V{ptr(tm(1)), ptr(tm(10))}},
+		{K: "array", Elems: []*V{ptr(tm(1)), ptr(tm(10))}},
+		{K: "array", Elems: []*V{tm(1)}},
+		ptr(st(fld("F1", nil, &V{K: "array", Elems: []*V{inner(1)}}), fld("F2", nil, &V{K: "islice", Elems: []*V{ptr(inner(10)), tm(20)}}))),
+	}
+}
+
 func genSeeds(e *emitter) {
+	for _, cf := range []Cfg{{Wrap: "ok"}, {Ov: [3]string{"", "hmac", "encrypt"}, Wrap: "ok"}} {
+		for _, v := range outsidePayloads() {
+			e.emit(Case{Gen: "seeds-outside", Cfg: cf, PK: "val", V: v, SnapOnly: true})
+		}
+	}
 	cfgs := []Cfg{{Wrap: "ok"}, {Ov: [3]string{"none", "none", "none"}, Wrap: "ok"}, {Ov: [3]string{"", "hmac", "encrypt"}, Wrap: "ok"}, {Ov: [3]string{"redact", "redact", "none"}, Wrap: "absent"}, {Wrap: "failing", EncFail: []int{0}}}
 	for _, cf := range cfgs {
 		for _, v := range seedPayloads() {
